@@ -16,6 +16,7 @@ RULE = ("each case is a multi-conformation input: the repository's five conf-* f
         "conformations; distinct = distinct input digests."
         " Same-state cases: alternate locations that repeat one set of coordinates (2-3 states on part of 1-3 residues; plain, --protonate-all, or -k with supplied hydrogens moved off the ideal positions): every conformation and AVR equal the structure written without alternate locations.")
 RULE = RULE + ' Round 8: the written table of a multi-conformation run shows the mean (two decimals; neighbour counts within 1, means of k+1/2 written the same way throughout a file).'
+RULE = RULE + ' Rounds 11-12: a metal site holding another ion in each model (empty in one of three or more); one residue that is itself, a mutant and absent in different models; completion must come from the earliest donor.'
 ASSUMPTIONS = ["groups are identified across conformations by (chain, number, insertion code, atom name, type)",
                "determinants are compared per (type, partner label), which is what the output shows"]
 TIMEOUT = {"quick": 2400, "thorough": 14400}
